@@ -1,20 +1,20 @@
-"""Controlled thread scheduler: real threads, released one at a time according to a schedule.
+"""Controlled thread scheduler: real threads, run one at a time according to a schedule.
 
 A *controlled thread* runs real code; it stops
   * at every 'line' event of the code objects given in `line_codes` (sys.settrace, per thread),
   * wherever the harness calls `Sched.stop(kind, ...)` explicitly (wrappers around Queue.put / Queue.get,
     the point before an event is delivered).
-At a stop the thread hands control back to the controller and sleeps on its own semaphore.  The
-controller (the thread that built the Sched) releases exactly one thread at a time with
-`release(tid)` and gets back the list of events the thread noted (`Sched.note`) before it reached
-its next stop or finished.  So at any moment at most one controlled thread runs: every context
-switch is decided by the schedule.
+At a stop (and when it ends) the thread calls the `decide` callback given to `Sched.run` with its id and
+the events noted (`Sched.note`) since the previous stop; `decide` returns the id of the thread to run
+next (or None: the run is over).  If that is the same thread it simply goes on, otherwise it wakes the
+chosen thread and sleeps on its own semaphore.  So at any moment exactly one controlled thread runs and
+every context switch is decided by the schedule; `decide` itself is never run concurrently.
 
-A stop may carry an `enabled` callable (e.g. "the queue is not empty" for a blocking get); the
-controller never releases a thread whose stop is disabled - that is how a thread blocked in
-Queue.get is represented without ever blocking for real.
+A stop may carry an `enabled` callable (e.g. "the queue is not empty" for a blocking get): `decide` must
+not choose a thread for which `is_enabled` is false - that is how a thread blocked in Queue.get is
+represented without ever blocking for real.
 
-Robustness: every wait has a timeout; a timeout raises `Deadlock` in the controller (the case fails
+Robustness: every wait has a timeout; a timeout raises `Deadlock` in the caller of `run` (the case fails
 loudly), threads are daemons, `shutdown()` lets every thread run free to completion and joins them.
 """
 import sys
@@ -27,7 +27,7 @@ class Deadlock(Exception):
 
 
 class Shutdown(BaseException):
-    """Raised inside a controlled thread that is parked at a disabled stop when the run is over."""
+    """Raised inside a controlled thread parked at a disabled stop when the run is over."""
 
 
 class _Ctl:
@@ -37,8 +37,8 @@ class _Ctl:
         self.tid = tid
         self.sem = threading.Semaphore(0)
         self.thread = None
-        self.state = 'new'        # new | stopped | running | done
-        self.kind = None          # kind of the current stop
+        self.state = 'stopped'    # stopped | running | done
+        self.kind = 'begin'       # kind of the current stop
         self.enabled = None       # callable or None
         self.where = None         # (function name, line) of a line stop
         self.error = None         # exception that ended the thread, if any
@@ -49,12 +49,13 @@ class Sched:
         self.line_codes = frozenset(line_codes)
         self.return_codes = frozenset(return_codes)   # code objects whose 'return' is noted as an event
         self.timeout = timeout
-        self.back = threading.Semaphore(0)
         self.ctl = {}
         self.local = threading.local()
         self.events = []
         self.free_run = False
-        self.stops = 0
+        self.finished = threading.Event()
+        self.failure = None
+        self.decide = None
 
     # ------------------------------------------------------------------ controlled-thread side
     def _global_trace(self, frame, event, arg):
@@ -67,28 +68,42 @@ class Sched:
             if not self.free_run:
                 c = self.local.ctl
                 c.where = (frame.f_code.co_name, frame.f_lineno)
-                self._park(c, 'line', None)
+                c.kind, c.enabled = 'line', None
+                self._handoff(c)
         elif event == 'return' and frame.f_code in self.return_codes:
-            self.events.append(('return', frame.f_code.co_name, id(frame)))
+            self.events.append(('return', frame.f_code.co_name))
         return self._local_trace
 
-    def _park(self, c, kind, enabled):
-        c.kind, c.enabled, c.state = kind, enabled, 'stopped'
-        self.stops += 1
-        self.back.release()
-        if not c.sem.acquire(timeout=self.timeout * 4):
-            raise Shutdown()          # the controller is gone: end this thread
-        c.state = 'running'
+    def _handoff(self, c):
+        """c has just stopped (or ended): ask who runs next."""
+        if c.state != 'done':
+            c.state = 'stopped'
+        ev, self.events = self.events, []
+        try:
+            nxt = self.decide(c.tid, ev)
+        except BaseException as e:          # a bug in the harness: report it in run()
+            self.failure = e
+            nxt = None
+        if nxt is None:
+            self.finished.set()
+        elif nxt == c.tid and c.state != 'done':
+            c.state = 'running'
+            return
+        else:
+            n = self.ctl[nxt]
+            n.state = 'running'
+            n.sem.release()
+        if c.state != 'done':
+            if not c.sem.acquire(timeout=self.timeout * 4):
+                raise Shutdown()            # nobody woke us: the run is gone
+            c.state = 'running'
 
     def stop(self, kind, enabled=None):
         """Explicit stop, called by harness code running in a controlled thread."""
-        if self.free_run:
-            if enabled is not None and not enabled():
-                raise Shutdown()
-            return
-        c = self.local.ctl
-        c.where = None
-        self._park(c, kind, enabled)
+        if not self.free_run:
+            c = self.local.ctl
+            c.where, c.kind, c.enabled = None, kind, enabled
+            self._handoff(c)
         if self.free_run and enabled is not None and not enabled():
             raise Shutdown()
 
@@ -98,7 +113,8 @@ class Sched:
     def _body(self, c, fn):
         self.local.ctl = c
         try:
-            c.sem.acquire()                       # wait for the first release
+            if not c.sem.acquire(timeout=self.timeout * 4):
+                return
             c.state = 'running'
             sys.settrace(self._global_trace)
             try:
@@ -111,14 +127,17 @@ class Sched:
             c.error = e
         finally:
             c.state = 'done'
-            self.back.release()
+            if not self.free_run:
+                try:
+                    self._handoff(c)
+                except Shutdown:
+                    pass
 
     # ------------------------------------------------------------------ controller side
     def spawn(self, tid, fn):
         c = _Ctl(tid)
         self.ctl[tid] = c
         c.thread = threading.Thread(target=self._body, args=(c, fn), daemon=True)
-        c.kind, c.state = 'begin', 'stopped'
         c.thread.start()
 
     def is_done(self, tid):
@@ -137,18 +156,20 @@ class Sched:
         c = self.ctl[tid]
         return (c.state, c.kind, c.where)
 
-    def release(self, tid):
-        """Let thread `tid` run to its next stop (or to its end); returns the events it noted."""
-        c = self.ctl[tid]
-        assert c.state == 'stopped', (tid, c.state)
-        self.events = []
-        c.state = 'running'
-        c.sem.release()
-        if not self.back.acquire(timeout=self.timeout):
-            raise Deadlock('thread %r did not come back within %.1fs (last stop %r %r)'
-                           % (tid, self.timeout, c.kind, c.where))
-        ev, self.events = self.events, []
-        return ev
+    def run(self, decide):
+        """decide(tid or None, events) -> next tid or None.  Called first with (None, []) from here, then by
+        each thread at each of its stops and at its end.  Returns when decide returns None."""
+        self.decide = decide
+        nxt = decide(None, [])
+        if nxt is not None:
+            n = self.ctl[nxt]
+            n.state = 'running'
+            n.sem.release()
+            if not self.finished.wait(self.timeout):
+                raise Deadlock('run not finished within %.1fs; threads: %r'
+                               % (self.timeout, {t: self.stop_of(t) for t in self.ctl}))
+        if self.failure is not None:
+            raise self.failure
 
     def shutdown(self):
         """Let every thread run free to its end (threads parked at a disabled stop get Shutdown)."""
